@@ -112,9 +112,9 @@ func main() {
 		v.funcsVerified = append(v.funcsVerified, c.Key)
 	}
 	tExec := time.Since(t0) - tLoad
-	ms := 20000
+	ms := 60000
 	if *tier == "thorough" {
-		ms = 120000
+		ms = 180000
 	}
 	outRoot := *vdir
 	if *scratch != "" {
@@ -122,7 +122,7 @@ func main() {
 	}
 	outDir := filepath.Join(outRoot, "out", *prop)
 	os.RemoveAll(outDir)
-	solveAll(v.obls, outDir, ms, 8)
+	solveAll(v.obls, outDir, ms, 12)
 	tSolve := time.Since(t0) - tLoad - tExec
 
 	// aggregate
